@@ -23,4 +23,7 @@
 #define PB_FRESH(b) (__CPROVER_is_fresh((b), sizeof(parse_buffer)) && __CPROVER_is_fresh((b)->content, (b)->length) && PB_INV(b))
 #define PB_SAME(b) ((b)->content == __CPROVER_old((b)->content) && (b)->length == __CPROVER_old((b)->length) && (b)->offset <= (b)->length)
 
+/* ---- bytes that parse_number copies into its candidate token */
+#define NUM_CHAR(c) (((c) >= '0' && (c) <= '9') || (c) == '+' || (c) == '-' || (c) == 'e' || (c) == 'E' || (c) == '.')
+
 #endif
